@@ -127,6 +127,10 @@ class Unsupported(Exception):
     pass
 
 
+class FrameViolation(Unsupported):
+    """the code writes to an object that outlives the call (C14/C15 frame obligation)"""
+
+
 class Infeasible(Exception):
     pass
 
